@@ -95,13 +95,13 @@ def evaluate_all(impl_by_fam):
                 for tok in orcs.split():
                     k, _, v = tok.partition("=")
                     orc[k] = v
-                if core.oracle_fails(pid, op, orc, core_a) or (pid == "C14" and core_a.startswith("visit r=panic") and b.startswith("visit r=err:")):
+                if core.oracle_fails(pid, op, orc, core_a) or (pid == "C14" and b.startswith("visit r=err:") and core_a.split()[1:2] != b.split()[1:2] and not (orc.get("sfwwcut") == "1" or orc.get("rb") == "ok:sfww-cut")):
                     verdict = "input"
                     break
                 if core_a != b:
                     pa = core.proj(pid, op, core_a)
                     pb = core.proj(pid, op, b)
-                    if pa != pb and "SegwitFlagWithoutWitnesses" in b and "MoreBytesNeeded" in core_a and orc.get("rb") == "ok:sfww-cut":
+                    if pa != pb and "SegwitFlagWithoutWitnesses" in b and "MoreBytesNeeded" in core_a and (orc.get("rb") == "ok:sfww-cut" or orc.get("sfwwcut") == "1"):
                         pb2 = core.proj(pid, op, b.replace("err:SegwitFlagWithoutWitnesses", "err:MoreBytesNeeded"))
                         if pb2 == pa:
                             pb = pa
